@@ -319,6 +319,14 @@ func runC01(c *Ctx) {
 			env.exec(c, "validate", nt, s, []byte{1, 2, 3})
 		}
 	}
+	// (a0) uTP stream bodies on the varint boundaries (length prefixes that overflow, wrap or exceed the data)
+	for _, nt := range env.nets {
+		for _, h := range []string{"80", "8000", "8080808000", "808080808000", "ffffffff0f", "ffffffff1f", "ffffffff7f", "fbffffff0f", "fcffffff0f",
+			"fdffffff0f", "feffffff0f", "faffffff0f", "ffffffff07", "8080808008", "0501", "01aa", "01aa01", "8100aa", "ffffff7f", "80808080", "8080808010"} {
+			env.exec(c, "stream", nt, []byte{1}, unhx(h))
+			env.exec(c, "stream", nt, []byte{2}, append(unhx(h), 0))
+		}
+	}
 	// (a') stateful prelude: a stored historical-summaries record, then short / long keys of that type
 	for _, nt := range env.nets {
 		if nt.name != "beacon" {
